@@ -27,7 +27,12 @@ LEVEL_NOTE = ("Trusted: Coq kernel + stdlib real axioms (reported per obligation
               "Gen/Stdkernels kernels; the hand-written trainer models (coq/C08/Stdp.v, coq/C18/DelayAdj.v, coq/C09/Split.v) "
               "validated by correspondence only. Not composed: whole-run parts for batches > 1 (per-call batch theorems only), "
               "per-sample reward with non-sum reductions (non-negativity only), delays between two steps, floating-point "
-              "rounding. Known finding: LinearHomeostasis' depressing part is negative-valued (tests pin it).")
+              "rounding. Per-cell hyperparameter overrides (register_cell keywords) are not a theorem: the theorems are per cell in "
+              "its EFFECTIVE hyperparameters; that every trainer reads the per-cell state (and not its constructor defaults) is "
+              "checked by the correspondence / oracle on groups of cells driven by one trainer object. Known finding: "
+              "LinearHomeostasis' depressing part is negative-valued (tests pin it). Finding candidate: forward(target=None) "
+              "of a LinearHomeostasis trainer with several cells uses the FIRST cell's default target for all later cells "
+              "(model targets_used, theorem target_carryover_refuted).")
 LEVEL_TEXT = ("Machine-checked (Coq, reals), for ALL spike histories, batch sizes, signals, reductions and the four sign modes: "
               "both parts of every STDP / StableSTDP / TripletSTDP / StableTripletSTDP / MSTDP / MSTDPET call and of the "
               "accumulator are >= 0 - invariant 'every recorded trace is >= 0' along arbitrary runs, delays on or off the grid "
@@ -50,7 +55,9 @@ LEVEL_TEXT = ("Machine-checked (Coq, reals), for ALL spike histories, batch size
               "[homeo_rates_below_target_ok] and REFUTED otherwise: for every batch of rates at or above target the applied "
               "change is minus the documented one [homeo_rates_above_target_moves_away, "
               "homeostasis_always_spiking_raises_weight, homeostasis_refuted, homeostasis_delay_refuted, "
-              "homeostasis_breaks_soft_bounds].")
+              "homeostasis_breaks_soft_bounds]; which target each cell of one trainer sees: an explicit forward(target) reaches "
+              "every cell, the cell's own default only when the defaults coincide - otherwise REFUTED "
+              "[targets_used_explicit, targets_used_same_default, target_carryover_refuted].")
 EXPLANATION = LEVEL_TEXT
 HEADER = ("From Coq Require Import List ZArith Bool PrimFloat.\n"
           "From Inferno Require Import Base.Num Base.NumF C08.Stdp C09.Split C09.SplitExec.\n"
@@ -213,13 +220,23 @@ def homeo_targets(case, units, t=0, which="used"):
 
 
 def q_homeo(case, units):
+    red = REDK[case.get("reduction") or "mean"]
+    p = {"weight": 0, "bias": 1, "delay": 2}[case["param"]]
+    if "grp_dflts" in case:
+        # member of a group: the target it sees is computed INSIDE Coq by the model of forward()'s loop over the cells
+        dfl = F.coq_list([F.coq_option(None if d is None else q(d)) for d in case["grp_dflts"]])
+        steps = []
+        for t, st in enumerate(case["post"]):
+            sp = F.coq_list(["[" + "; ".join(str(int(sb[u])) for u in units) + "]%Z" for sb in st])
+            f = case["fwd_targets"][t]
+            steps.append(f"({F.coq_option(None if f is None else q(f))}, {sp})")
+        return (f"run_homeo_g {red}%Z {p}%Z {q(case['plasticity'])} {case['grp_index']}%nat {dfl} {F.coq_list(steps)} "
+                f"{q_bind(case.get('bound'))} {q(case['x0'])}")
     steps = []
     for t, st in enumerate(case["post"]):
         tg = F.coq_list([F.coq_list([q(x) for x in row]) for row in homeo_targets(case, units, t)])
         sp = F.coq_list(["[" + "; ".join(str(int(sb[u])) for u in units) + "]%Z" for sb in st])
         steps.append(f"({tg}, {sp})")
-    red = REDK[case.get("reduction") or "mean"]
-    p = {"weight": 0, "bias": 1, "delay": 2}[case["param"]]
     return (f"run_homeo_v {red}%Z {p}%Z {q(case['plasticity'])} {F.coq_list(steps)} {q_bind(case.get('bound'))} {q(case['x0'])}")
 
 
@@ -228,8 +245,9 @@ def annotate_homeo_group(defaults, cells):
     T = len(cells[0]["post"])
     fwd = cells[0].get("fwd_targets") or [None] * T
     dflt = [(c["target_reg"] if "target" in c.get("override_keys", []) else defaults.get("target_ctor")) for c in cells]
-    for c in cells:
+    for j, c in enumerate(cells):
         c["tg_used"], c["tg_doc"] = [], []
+        c["grp_dflts"], c["grp_index"] = dflt, j
     for t in range(T):
         cur = fwd[t]
         for c, d in zip(cells, dflt):
@@ -753,7 +771,7 @@ def run_impl_grouped(cases):
                 payload.append({"kind": "group", "family": c["family"], "defaults": c["defaults"], "cells": []})
             k = seen[gid]
             slots.append((k, len(payload[k]["cells"])))
-            payload[k]["cells"].append({kk: v for kk, v in c.items() if kk not in ("defaults", "tg_used", "tg_doc")})
+            payload[k]["cells"].append({kk: v for kk, v in c.items() if kk not in ("defaults", "tg_used", "tg_doc", "grp_dflts", "grp_index")})
     res = F.run_impl(IMPL, {"cases": payload})
     return [res[k] if j is None else res[k][j] for (k, j) in slots]
 
@@ -776,8 +794,8 @@ def strip(c):
         c["cells"] = [strip(x) for x in c["cells"]]
         return c
     member = c.get("group") is not None
-    for k in ("defaults", "group", "family", "tg_used", "tg_doc"):
-        if member or k.startswith("tg_"):
+    for k in ("defaults", "group", "family", "tg_used", "tg_doc", "grp_dflts", "grp_index"):
+        if member or k.startswith("tg_") or k.startswith("grp_"):
             c.pop(k, None)
     for st in c.get("steps", []) if c.get("kind") == "cell" else []:
         st.pop("delay_seen", None)
